@@ -1,14 +1,638 @@
-//! Export / printer monitors C18, C20. (filled in below)
+//! C18 (XML / DOT exports) and C20 (inspect / Debug / v_print): parse-back monitors. The text is
+//! parsed by the monitor and compared with keys()/kids() of the same graph and the data the
+//! model recorded; C18 additionally builds the same abstract graph a second way (canonicity).
+
 use crate::hist::{Ctx, HistMonitor, HistStats};
-use crate::ops::Op;
-use crate::rec::{Outcome, Session};
-#[derive(Default)] pub struct C18;
+use crate::ops::{label_show, Op};
+use crate::rec::{guarded, Outcome, Session};
+use crate::shim::{new_graph, Graph};
+use std::collections::{BTreeMap, BTreeSet};
+
+type Parsed = Vec<(usize, Vec<(String, usize)>, Option<Vec<u8>>)>;
+
+fn parse_hex_text(t: &str) -> Option<Vec<u8>> {
+    let t = t.trim();
+    if t.is_empty() || t.chars().all(|c| c == '-' || c == ' ') {
+        return Some(vec![]);
+    }
+    t.split(|c: char| c == '-' || c.is_whitespace())
+        .filter(|x| !x.is_empty())
+        .map(|x| if x.len() == 2 { u8::from_str_radix(x, 16).ok() } else { None })
+        .collect()
+}
+
+pub fn parse_xml(xml: &str) -> Result<Parsed, String> {
+    let pkg = sxd_document::parser::parse(xml).map_err(|e| format!("XML does not parse: {e:?}"))?;
+    let doc = pkg.as_document();
+    let root = doc
+        .root()
+        .children()
+        .into_iter()
+        .find_map(|c| c.element())
+        .ok_or("no root element")?;
+    if root.name().local_part() != "sodg" {
+        return Err(format!("root element is <{}>", root.name().local_part()));
+    }
+    let mut out = vec![];
+    for c in root.children() {
+        let Some(v) = c.element() else { continue };
+        if v.name().local_part() != "v" {
+            return Err(format!("unexpected element <{}> under <sodg>", v.name().local_part()));
+        }
+        let id: usize = v.attribute_value("id").ok_or("<v> without id")?.parse().map_err(|_| "non-numeric id")?;
+        let mut edges = vec![];
+        let mut data = None;
+        for e in v.children() {
+            let Some(e) = e.element() else { continue };
+            match e.name().local_part() {
+                "e" => {
+                    let a = e.attribute_value("a").ok_or("<e> without a")?.to_string();
+                    let to: usize = e.attribute_value("to").ok_or("<e> without to")?.parse().map_err(|_| "non-numeric to")?;
+                    edges.push((a, to));
+                }
+                "data" => {
+                    let txt: String = e.children().into_iter().filter_map(|t| t.text().map(|t| t.text().to_string())).collect();
+                    if data.is_some() {
+                        return Err(format!("ν{id} has two <data> elements"));
+                    }
+                    data = Some(parse_hex_text(&txt).ok_or(format!("ν{id}: data text {txt:?} is not hex"))?);
+                }
+                other => return Err(format!("unexpected element <{other}> under <v>")),
+            }
+        }
+        out.push((id, edges, data));
+    }
+    Ok(out)
+}
+
+pub fn parse_dot(dot: &str) -> Result<Parsed, String> {
+    let mut nodes: Vec<(usize, Vec<(String, usize)>, Option<Vec<u8>>)> = vec![];
+    let mut closed = false;
+    for line in dot.lines() {
+        let l = line.trim();
+        if l.is_empty() || l.starts_with("/*") || l.starts_with("digraph") || l.starts_with("node [") || l.starts_with("edge [") {
+            continue;
+        }
+        if l == "}" {
+            closed = true;
+            continue;
+        }
+        if let Some(pos) = l.find(" -> ") {
+            // v1 -> v2 [label="x"...];
+            let from: usize = l[..pos].trim().strip_prefix('v').and_then(|x| x.parse().ok()).ok_or(format!("bad edge line {l:?}"))?;
+            let rest = &l[pos + 4..];
+            let sp = rest.find(' ').ok_or(format!("bad edge line {l:?}"))?;
+            let to: usize = rest[..sp].strip_prefix('v').and_then(|x| x.parse().ok()).ok_or(format!("bad edge line {l:?}"))?;
+            let lab = rest.split("label=\"").nth(1).and_then(|x| x.split('"').next()).ok_or(format!("edge without label {l:?}"))?;
+            if !nodes.iter().any(|n| n.0 == from) {
+                return Err(format!("edge from v{from} before/without its node line"));
+            }
+            if nodes.last().map(|n| n.0) != Some(from) {
+                return Err(format!("edge of v{from} not listed under its node"));
+            }
+            nodes.last_mut().unwrap().1.push((lab.to_string(), to));
+        } else if l.contains("[shape=circle") {
+            let br = l.find('[').unwrap();
+            let id: usize = l[..br].strip_prefix('v').and_then(|x| x.parse().ok()).ok_or(format!("bad node line {l:?}"))?;
+            let lab = l.split("label=\"").nth(1).and_then(|x| x.split('"').next()).unwrap_or("");
+            if lab != format!("ν{id}") {
+                return Err(format!("node v{id} labelled {lab:?}"));
+            }
+            let data = if let Some(p) = l.find("/*") {
+                let inner = l[p + 2..].split("*/").next().unwrap_or("");
+                Some(parse_hex_text(inner).ok_or(format!("v{id}: data comment {inner:?} is not hex"))?)
+            } else {
+                None
+            };
+            let coloured = l.contains("color=");
+            if coloured != data.is_some() {
+                return Err(format!("v{id}: data colour and data comment disagree"));
+            }
+            nodes.push((id, vec![], data));
+        } else {
+            return Err(format!("unexpected DOT line {l:?}"));
+        }
+    }
+    if !closed {
+        return Err("DOT text is not closed".to_string());
+    }
+    Ok(nodes)
+}
+
+/// Compare parsed text with the graph: nodes == keys (ascending), edges == kids, data == model.
+fn compare(what: &str, parsed: &Parsed, s: &Session) -> Option<String> {
+    let ids: Vec<usize> = parsed.iter().map(|p| p.0).collect();
+    let keys = s.g.keys();
+    let mut sorted = ids.clone();
+    sorted.sort_unstable();
+    if sorted != keys {
+        let extra: Vec<&usize> = ids.iter().filter(|i| !keys.contains(i)).collect();
+        let missing: Vec<&usize> = keys.iter().filter(|i| !ids.contains(i)).collect();
+        return Some(format!(
+            "{what} lists {} vertices, {} are present (absent ids listed: {extra:?}, present ids missing: {missing:?})",
+            ids.len(),
+            keys.len()
+        ));
+    }
+    if ids != sorted {
+        return Some(format!("{what} does not list vertices in ascending id order: {ids:?}"));
+    }
+    for (id, edges, data) in parsed {
+        let mut got: Vec<(String, usize)> = edges.clone();
+        let mut want: Vec<(String, usize)> = s.g.kids(*id).iter().map(|(l, t)| (label_show(l), *t)).collect();
+        got.sort();
+        want.sort();
+        if got != want {
+            return Some(format!("{what}: ν{id} has edge entries {got:?}, kids() says {want:?}"));
+        }
+        if let Some(mv) = s.m.verts.get(id) {
+            if *data != mv.data {
+                return Some(format!(
+                    "{what}: ν{id} shows data {:?}, last put says {:?}",
+                    data.as_ref().map(|d| crate::ops::hex(d)),
+                    mv.data.as_ref().map(|d| crate::ops::hex(d))
+                ));
+            }
+        }
+    }
+    None
+}
+
+// ------------------------------------------------------------------------------------ C18
+
+#[derive(Default)]
+pub struct C18 {
+    since: usize,
+    pub qualified: bool,
+    pub exports: u64,
+    pub canon_checked: u64,
+}
+
+impl C18 {
+    fn check(&mut self, s: &mut Session, ctx: &mut Ctx, canon: bool) -> Option<String> {
+        let xml = match guarded(|| s.g.to_xml()) {
+            Ok(Ok(x)) => x,
+            Ok(Err(e)) => return Some(format!("to_xml() returned Err: {e}")),
+            Err(p) => return Some(format!("to_xml() panicked: {p}")),
+        };
+        let dot = match guarded(|| s.g.to_dot()) {
+            Ok(d) => d,
+            Err(p) => return Some(format!("to_dot() panicked: {p}")),
+        };
+        self.exports += 1;
+        ctx.c.inc("c18.exports-parsed");
+        match parse_xml(&xml) {
+            Ok(p) => {
+                if let Some(m) = compare("to_xml()", &p, s) {
+                    return Some(m);
+                }
+            }
+            Err(e) => return Some(format!("to_xml(): {e}")),
+        }
+        match parse_dot(&dot) {
+            Ok(p) => {
+                if let Some(m) = compare("to_dot()", &p, s) {
+                    return Some(m);
+                }
+            }
+            Err(e) => return Some(format!("to_dot(): {e}")),
+        }
+        // non-triviality: collected id + never-added id + a vertex with >=2 edges and data
+        let keys = s.g.keys();
+        let has_collected = !s.m.graveyard.is_empty();
+        let never_added = keys.len() + s.m.graveyard.len() < s.cap;
+        let rich = keys.iter().any(|v| s.g.kids(*v).len() >= 2 && s.m.verts.get(v).is_some_and(|x| x.data.is_some()));
+        if has_collected && never_added && rich {
+            self.qualified = true;
+        }
+        if canon {
+            if let Some(m) = self.canonicity(s, ctx, &xml, &dot) {
+                return Some(m);
+            }
+        }
+        None
+    }
+
+    /// Build the same abstract graph (present vertices, edges, data) by a different history on a
+    /// graph of different N / capacity; the two texts must be byte-identical.
+    fn canonicity(&mut self, s: &mut Session, ctx: &mut Ctx, xml: &str, dot: &str) -> Option<String> {
+        let keys = s.g.keys();
+        if keys.is_empty() {
+            return None;
+        }
+        let keyset: BTreeSet<usize> = keys.iter().copied().collect();
+        let mut edges: Vec<(usize, sodg::Label, usize)> = vec![];
+        let mut maxdeg = 0;
+        for v in &keys {
+            let ks = s.g.kids(*v);
+            maxdeg = maxdeg.max(ks.len());
+            for (l, t) in ks {
+                if !keyset.contains(&t) || t == *v {
+                    ctx.c.inc("c18.canon-skipped-dangling-or-self-edge");
+                    return None;
+                }
+                edges.push((*v, l, t));
+            }
+        }
+        // undirected components
+        let mut comp: BTreeMap<usize, usize> = keys.iter().map(|v| (*v, *v)).collect();
+        fn find(c: &mut BTreeMap<usize, usize>, v: usize) -> usize {
+            let p = c[&v];
+            if p == v {
+                v
+            } else {
+                let r = find(c, p);
+                c.insert(v, r);
+                r
+            }
+        }
+        for (a, _, b) in &edges {
+            let (ra, rb) = (find(&mut comp, *a), find(&mut comp, *b));
+            if ra != rb {
+                comp.insert(ra, rb);
+            }
+        }
+        let mut sizes: BTreeMap<usize, usize> = BTreeMap::new();
+        for v in &keys {
+            *sizes.entry(find(&mut comp, *v)).or_insert(0) += 1;
+        }
+        let with_edges = sizes.values().filter(|n| **n >= 2).count();
+        if sizes.values().any(|n| *n > 16) || with_edges > 12 {
+            ctx.c.inc("c18.canon-skipped-would-exceed-group-limits");
+            return None;
+        }
+        let max_id = *keys.last().unwrap();
+        let n2 = ctx.rng.range(maxdeg.max(1), 16);
+        let cap2 = (max_id + 1 + 2 + ctx.rng.below(20)).max(4);
+        let datas: BTreeMap<usize, Vec<u8>> = keys
+            .iter()
+            .filter_map(|v| s.m.verts.get(v).and_then(|x| x.data.clone()).map(|d| (*v, d)))
+            .collect();
+        let mut order = keys.clone();
+        ctx.rng.shuffle(&mut order);
+        let built = guarded(|| {
+            let mut b = new_graph(n2, cap2);
+            // detour: a pair on spare ids that lives, gets data, is read and collected
+            let spare: Vec<usize> = (0..cap2).filter(|v| !keyset.contains(v)).take(2).collect();
+            if spare.len() == 2 {
+                b.add(spare[0]);
+                b.add(spare[1]);
+                b.bind(spare[0], spare[1], sodg::Label::Alpha(7));
+                b.put(spare[1], &sodg::Hex::from_vec(vec![1, 2, 3, 4, 5, 6, 7, 8, 9, 10]));
+                let _ = b.data(spare[1]);
+            }
+            for v in &order {
+                b.add(*v);
+                if let Some(d) = datas.get(v) {
+                    // overwritten and re-read data while the vertex is still ungrouped (cannot collect)
+                    b.put(*v, &sodg::Hex::from_vec(vec![0xEE; 11]));
+                    let _ = b.data(*v);
+                    b.put(*v, &sodg::Hex::from_vec(d.clone()));
+                }
+            }
+            // edges in an order in which every component forms exactly one group
+            let mut todo = edges.clone();
+            let mut grouped: BTreeSet<usize> = BTreeSet::new();
+            while !todo.is_empty() {
+                let pick = todo
+                    .iter()
+                    .enumerate()
+                    .filter(|(_, (a, _, t))| grouped.contains(a) || grouped.contains(t))
+                    .map(|(i, _)| i)
+                    .collect::<Vec<_>>();
+                let i = if pick.is_empty() { 0 } else { pick[pick.len() / 2] };
+                let (a, l, t) = todo.remove(i);
+                b.bind(a, t, l);
+                grouped.insert(a);
+                grouped.insert(t);
+            }
+            (b.to_xml(), b.to_dot(), b.keys())
+        });
+        let (x2, d2, k2) = match built {
+            Ok(r) => r,
+            Err(p) => {
+                ctx.c.inc("c18.canon-twin-build-panicked");
+                let _ = p;
+                return None;
+            }
+        };
+        if k2 != keys {
+            ctx.c.inc("c18.canon-twin-has-other-vertices");
+            return None;
+        }
+        self.canon_checked += 1;
+        ctx.c.inc("c18.canonicity-twins-compared");
+        match x2 {
+            Ok(x2) => {
+                if x2 != xml {
+                    return Some(format!(
+                        "to_xml() of two graphs with the same vertices, edges and data differs (N={} cap={} vs N={n2} cap={cap2}): {}",
+                        s.n,
+                        s.cap,
+                        crate::rec::first_diff(xml, &x2)
+                    ));
+                }
+            }
+            Err(e) => return Some(format!("to_xml() of the twin build failed: {e}")),
+        }
+        if d2 != dot {
+            return Some(format!(
+                "to_dot() of two graphs with the same vertices, edges and data differs (N={} cap={} vs N={n2} cap={cap2}): {}",
+                s.n,
+                s.cap,
+                crate::rec::first_diff(dot, &d2)
+            ));
+        }
+        None
+    }
+}
+
 impl HistMonitor for C18 {
-    fn after(&mut self, _s: &mut Session, _op: &Op, _o: &Outcome, _c: &mut Ctx) -> Option<String> { None }
-    fn nontrivial(&self, _c: &HistStats) -> bool { false }
+    fn after(&mut self, s: &mut Session, op: &Op, o: &mut Outcome, ctx: &mut Ctx) -> Option<String> {
+        self.since += 1;
+        let collected = matches!(op, Op::Data(_)) && o.keys_after.len() < o.keys_before.len();
+        if self.since < 8 && !collected {
+            return None;
+        }
+        self.since = 0;
+        let canon = ctx.rng.chance(1, 3);
+        self.check(s, ctx, canon)
+    }
+    fn finish(&mut self, s: &mut Session, ctx: &mut Ctx) -> Option<String> {
+        self.check(s, ctx, true)
+    }
+    fn nontrivial(&self, _c: &HistStats) -> bool {
+        self.qualified
+    }
+    fn owns_panic(&self, op: &Op) -> bool {
+        matches!(op, Op::Export)
+    }
 }
-#[derive(Default)] pub struct C20;
+
+// ------------------------------------------------------------------------------------ C20
+
+#[derive(Default)]
+pub struct C20 {
+    since: usize,
+    pub qualified: bool,
+    pub inspected: u64,
+}
+
+/// Parse inspect() output: returns edges grouped by the vertex they are listed under.
+pub fn parse_inspect(v: usize, txt: &str) -> Result<BTreeMap<usize, Vec<(String, usize)>>, String> {
+    let mut lines = txt.lines();
+    let first = lines.next().ok_or("empty output")?;
+    if first != format!("ν{v}") {
+        return Err(format!("first line is {first:?}"));
+    }
+    let mut by: BTreeMap<usize, Vec<(String, usize)>> = BTreeMap::new();
+    let mut stack: Vec<usize> = vec![v];
+    let mut elided_depth: Option<usize> = None;
+    for line in lines {
+        let indent = line.len() - line.trim_start_matches(' ').len();
+        if indent % 2 != 0 || indent < 2 {
+            return Err(format!("odd indentation in {line:?}"));
+        }
+        let d = indent / 2; // depth of the edge line; its owner was opened at depth d-1
+        let body = &line[indent..];
+        let body = body.strip_prefix('.').ok_or(format!("line without '.': {line:?}"))?;
+        let (lab, rest) = body.split_once(" ➞ ν").ok_or(format!("line without arrow: {line:?}"))?;
+        let elided = rest.ends_with('…');
+        let t: usize = rest.trim_end_matches('…').parse().map_err(|_| format!("bad target in {line:?}"))?;
+        if d > stack.len() {
+            return Err(format!("line {line:?} is deeper than its predecessor allows"));
+        }
+        if let Some(ed) = elided_depth {
+            if d > ed {
+                return Err(format!("line {line:?} is listed under an elided (…) vertex"));
+            }
+        }
+        stack.truncate(d);
+        let owner = stack[d - 1];
+        by.entry(owner).or_default().push((lab.to_string(), t));
+        stack.push(t);
+        elided_depth = if elided { Some(d) } else { None };
+    }
+    Ok(by)
+}
+
+pub fn parse_debug(txt: &str) -> Result<Parsed, String> {
+    let mut out = vec![];
+    // entries: "ν{v} -> ⟦...⟧" possibly spanning lines; then "b{n}: {...}" lines
+    let mut rest = txt;
+    while !rest.is_empty() {
+        let line_end = rest.find('\n').unwrap_or(rest.len());
+        let head = &rest[..line_end];
+        if head.starts_with('b') && head.contains(": {") {
+            rest = rest.get(line_end + 1..).unwrap_or("");
+            continue;
+        }
+        let Some(h) = rest.strip_prefix('ν') else {
+            return Err(format!("unexpected text {:?}", &rest[..rest.len().min(40)]));
+        };
+        let (id, after) = h.split_once(" -> ⟦").ok_or("entry without ⟦")?;
+        let id: usize = id.parse().map_err(|_| format!("bad id {id:?}"))?;
+        let close = after.find('⟧').ok_or("entry without ⟧")?;
+        let inner = &after[..close];
+        let mut edges = vec![];
+        let mut data = None;
+        if !inner.is_empty() {
+            for item in inner.split(", ") {
+                if let Some(e) = item.strip_prefix("\n\t") {
+                    let (lab, t) = e.split_once(" ➞ ν").ok_or(format!("bad edge item {item:?}"))?;
+                    edges.push((lab.to_string(), t.parse().map_err(|_| format!("bad target {t:?}"))?));
+                } else {
+                    if data.is_some() {
+                        return Err(format!("ν{id}: two data items"));
+                    }
+                    data = Some(parse_hex_text(item).ok_or(format!("ν{id}: item {item:?} is neither an edge nor hex data"))?);
+                }
+            }
+        }
+        out.push((id, edges, data));
+        rest = &after[close + '⟧'.len_utf8()..];
+        rest = rest.strip_prefix('\n').unwrap_or(rest);
+    }
+    Ok(out)
+}
+
+impl C20 {
+    fn check(&mut self, s: &mut Session, ctx: &mut Ctx, all: bool) -> Option<String> {
+        let keys = s.g.keys();
+        let keyset: BTreeSet<usize> = keys.iter().copied().collect();
+        let mut kids: BTreeMap<usize, Vec<(sodg::Label, usize)>> = BTreeMap::new();
+        for v in &keys {
+            kids.insert(*v, s.g.kids(*v));
+        }
+        // Debug / Display
+        for (name, txt) in [("Debug", guarded(|| s.g.debug())), ("Display", guarded(|| s.g.display()))] {
+            let txt = match txt {
+                Ok(t) => t,
+                Err(p) => return Some(format!("{name} panicked: {p}")),
+            };
+            match parse_debug(&txt) {
+                Ok(p) => {
+                    let ids: Vec<usize> = p.iter().map(|x| x.0).collect();
+                    let mut sorted = ids.clone();
+                    sorted.sort_unstable();
+                    if sorted != keys {
+                        return Some(format!("{name} lists vertices {ids:?}, present are {keys:?}"));
+                    }
+                    for (id, edges, data) in &p {
+                        let mut got = edges.clone();
+                        let mut want: Vec<(String, usize)> = kids[id].iter().map(|(l, t)| (label_show(l), *t)).collect();
+                        got.sort();
+                        want.sort();
+                        if got != want {
+                            return Some(format!("{name}: ν{id} lists edges {got:?}, kids() says {want:?}"));
+                        }
+                        if let Some(mv) = s.m.verts.get(id) {
+                            if *data != mv.data {
+                                return Some(format!(
+                                    "{name}: ν{id} shows data {:?}, last put says {:?}",
+                                    data.as_ref().map(|d| crate::ops::hex(d)),
+                                    mv.data.as_ref().map(|d| crate::ops::hex(d))
+                                ));
+                            }
+                        }
+                    }
+                }
+                Err(e) => return Some(format!("{name} output cannot be read back: {e}")),
+            }
+            ctx.c.inc("c20.debug-texts-parsed");
+        }
+        // v_print
+        for v in &keys {
+            let vp = match guarded(|| s.g.v_print(*v)) {
+                Ok(Ok(t)) => t,
+                Ok(Err(e)) => return Some(format!("v_print({v}) returned Err: {e}")),
+                Err(p) => return Some(format!("v_print({v}) panicked: {p}")),
+            };
+            let inner = vp
+                .strip_prefix(&format!("ν{v}⟦"))
+                .and_then(|x| x.strip_suffix('⟧'));
+            let Some(inner) = inner else {
+                return Some(format!("v_print({v}) = {vp:?} is not of the form ν{v}⟦…⟧"));
+            };
+            let (has, list) = match inner.strip_prefix("Δ, ") {
+                Some(r) => (true, r),
+                None => (false, inner),
+            };
+            let mut got: Vec<String> = list.split(", ").filter(|x| !x.is_empty()).map(str::to_string).collect();
+            let mut want: Vec<String> = kids[v].iter().map(|(l, _)| label_show(l)).collect();
+            got.sort();
+            want.sort();
+            if got != want {
+                return Some(format!("v_print({v}) = {vp:?} lists labels {got:?}, kids() has {want:?}"));
+            }
+            if let Some(mv) = s.m.verts.get(v) {
+                if has != mv.data.is_some() {
+                    return Some(format!(
+                        "v_print({v}) = {vp:?} {} the data marker, but the vertex {}",
+                        if has { "shows" } else { "lacks" },
+                        if mv.data.is_some() { "has data" } else { "has no data" }
+                    ));
+                }
+            }
+            ctx.c.inc("c20.v_print-checked");
+        }
+        // inspect from every start vertex whose reachable part is present
+        let mut starts = keys.clone();
+        ctx.rng.shuffle(&mut starts);
+        if !all {
+            starts.truncate(4);
+        }
+        for v in starts {
+            // reachable set
+            let mut reach = BTreeSet::new();
+            let mut todo = vec![v];
+            let mut ok = true;
+            while let Some(x) = todo.pop() {
+                if !keyset.contains(&x) {
+                    ok = false;
+                    break;
+                }
+                if reach.insert(x) {
+                    for (_, t) in &kids[&x] {
+                        todo.push(*t);
+                    }
+                }
+            }
+            if !ok {
+                ctx.c.inc("c20.start-with-dangling-edge-skipped");
+                continue;
+            }
+            if let Some(f) = &mut s.sink {
+                use std::io::Write;
+                let _ = writeln!(f, "# inspect({v})");
+                let _ = f.flush();
+            }
+            let txt = match guarded(|| s.g.inspect(v)) {
+                Ok(Ok(t)) => t,
+                Ok(Err(e)) => return Some(format!("inspect({v}) returned Err: {e}")),
+                Err(p) => return Some(format!("inspect({v}) panicked: {p}")),
+            };
+            self.inspected += 1;
+            ctx.c.inc("c20.inspects-parsed");
+            let total: usize = reach.iter().map(|u| kids[u].len()).sum();
+            let nlines = txt.lines().count();
+            if nlines > 1 + total {
+                return Some(format!(
+                    "inspect({v}) printed {nlines} lines; the reachable part has only {total} edges (some edge is listed more than once)"
+                ));
+            }
+            match parse_inspect(v, &txt) {
+                Err(e) => return Some(format!("inspect({v}) output cannot be read back: {e}")),
+                Ok(by) => {
+                    for u in &reach {
+                        let mut got = by.get(u).cloned().unwrap_or_default();
+                        let mut want: Vec<(String, usize)> = kids[u].iter().map(|(l, t)| (label_show(l), *t)).collect();
+                        got.sort();
+                        want.sort();
+                        if got != want {
+                            return Some(format!(
+                                "inspect({v}): under ν{u} the edges {got:?} are listed, kids({u}) has {want:?}"
+                            ));
+                        }
+                    }
+                    for u in by.keys() {
+                        if !reach.contains(u) {
+                            return Some(format!("inspect({v}) lists edges under ν{u}, which is not reachable"));
+                        }
+                    }
+                }
+            }
+            // non-trivial: a cycle and a diamond reachable
+            let indeg2 = reach.iter().any(|t| reach.iter().map(|u| kids[u].iter().filter(|(_, x)| x == t).count()).sum::<usize>() >= 2);
+            let cyc = txt.contains('…');
+            if indeg2 && cyc && reach.len() >= 3 {
+                self.qualified = true;
+            }
+        }
+        None
+    }
+}
+
 impl HistMonitor for C20 {
-    fn after(&mut self, _s: &mut Session, _op: &Op, _o: &Outcome, _c: &mut Ctx) -> Option<String> { None }
-    fn nontrivial(&self, _c: &HistStats) -> bool { false }
+    fn after(&mut self, s: &mut Session, op: &Op, o: &mut Outcome, ctx: &mut Ctx) -> Option<String> {
+        self.since += 1;
+        let collected = matches!(op, Op::Data(_)) && o.keys_after.len() < o.keys_before.len();
+        if self.since < 8 && !collected {
+            return None;
+        }
+        self.since = 0;
+        self.check(s, ctx, false)
+    }
+    fn finish(&mut self, s: &mut Session, ctx: &mut Ctx) -> Option<String> {
+        self.check(s, ctx, true)
+    }
+    fn nontrivial(&self, _c: &HistStats) -> bool {
+        self.qualified
+    }
+    fn owns_panic(&self, op: &Op) -> bool {
+        matches!(op, Op::Export)
+    }
 }
+
+#[allow(dead_code)]
+fn _unused(_: &dyn Graph) {}
